@@ -41,6 +41,9 @@ TOK_GROUP = _tok('G a a.b (x) = 1 { } ;')
 # byte families for line endings (CR, CRLF inside and after comments)
 CRLF = ["sl", "a", "cr", "lf", "sp", "sc"]
 CRLF_BLOCK = ["sl", "st", "cr", "lf"]
+# numeric literals (hex / exponent / sign / separators), alone and behind `a = `, and behind 0x / 0X
+NUM = ["d0", "d1", "x", "X", "e", "E", "p", "pl", "mi", "dot", "us", "a", "sc", "sp"]
+NUM_HEX = ["d1", "e", "E", "p", "pl", "mi", "dot", "us", "a", "sc"]
 TOK_EXPR = _tok('a 1 STR - . , : { } [ ] < > ( ) ;')
 
 GEN_CFG = """SPECIFICATION Spec
@@ -341,7 +344,7 @@ def _plan(tier, prop):
         if prop == "parse":      # short traces that repeat a lot: go deeper on inputs
             return {
                 "exh": [("full", FULL, 3, 0), ("mid", MID, 4, 4), ("core", CORE, 5, 5), ("core2", CORE2, 4, 4),
-                        ("crlf", CRLF, 5, 3)],
+                        ("crlf", CRLF, 5, 3), ("numhex", NUM, 4, 1, ("hex", "eqhex"))],
                 "sim": [("sim", FULL, 24, 100), ("simcore", CORE, 16, 200)],
                 "tok": [("toktop", TOK_TOP, 4, 1, ""), ("tokmsg", TOK_BODY, 3, 1, PRE_MSG), ("tokmsg4", TOK_BODY_CORE, 4, 4, PRE_MSG),
                         ("tokenum", TOK_BODY_CORE, 3, 1, PRE_ENUM),
@@ -357,14 +360,17 @@ def _plan(tier, prop):
             }
         return {                  # one trace per input (it carries the bytes): fewer, but every token is validated
             "exh": [("full", FULL, 3, 0), ("mid", MID4, 4, 4), ("core", CORE, 5, 5), ("core2", CORE2, 4, 4),
-                    ("crlf", CRLF, 6, 4), ("crlfblock", CRLF_BLOCK, 7, 5)],
+                    ("crlf", CRLF, 6, 4), ("crlfblock", CRLF_BLOCK, 7, 5), ("num", NUM, 4, 1, ("none", "eq")),
+                    ("numhex", NUM, 4, 1, ("hex", "HEX", "eqhex"))],
             "sim": [("sim", FULL, 24, 100), ("simcore", CORE, 16, 200)],
             "stride": 131, "depths": [1, 3, 64],
             "chunk": 400000, "gen_workers": 3, "gen_parallel": 3, "files_small": 40, "files_large": 1,
         }
     return {
         "exh": [("full", FULL, 2, 0), ("mid", MID4, 3, 3), ("core", CORE, 4, 4)] +
-               ([("crlf", CRLF, 5, 3), ("crlfblock", CRLF_BLOCK, 6, 5)] if prop == "lex" else []),
+               ([("crlf", CRLF, 5, 3), ("crlfblock", CRLF_BLOCK, 6, 5), ("num", NUM, 3, 1, ("none", "eq")),
+                 ("numhex", NUM_HEX, 4, 1, ("hex",)), ("numhexeq", NUM_HEX, 3, 1, ("HEX", "eqhex"))]
+                if prop == "lex" else [("numhex", NUM_HEX, 3, 1, ("hex", "eqhex"))]),
         # tlc -simulate checks the export invariant on every successor of the last step: num x |alphabet| cases
         "sim": [("sim", FULL, 16, 30), ("simcore", CORE, 10, 60)],
         "tok": [("tokmsg4", TOK_BODY_CORE[:10], 4, 4, PRE_MSG), ("toksvc", TOK_SVC[:10], 3, 1, PRE_SVC),
@@ -437,8 +443,11 @@ def run(pid, tier, replay=None):
         plan = _plan(tier, prop)
         files = _base_files(wd, tier, plan)
         jobs = []
-        for name, alpha, maxlen, exportmin in plan["exh"]:
-            jobs.append(lambda a=(name, alpha, maxlen, exportmin): _gen_exh(wd, cases, *a, workers=plan["gen_workers"]))
+        for ent in plan["exh"]:
+            name, alpha, maxlen, exportmin = ent[:4]
+            ctx = ent[4] if len(ent) > 4 else ""
+            jobs.append(lambda a=(name, alpha, maxlen, exportmin), c=ctx: _gen_exh(
+                wd, cases, *a, workers=plan["gen_workers"], prefix=c))
         for name, alpha, maxlen, num in plan["sim"]:
             jobs.append(lambda a=(name, alpha, maxlen, maxlen, num): _gen_exh(wd, cases, *a))
         for ent in plan.get("tok", []):
